@@ -343,6 +343,36 @@ def r4(ctx, retsets):
                   key="C06.R4:spki_copy:%s" % same)
 
 
+def r4_spki_latch(ctx, retsets):
+    """a key that could not be copied fails the whole copy, whatever is copied after it (otherwise an incomplete shadow table is swapped in)"""
+    pdb = ctx.pdb
+    fn = pdb.fn("spki_table_copy_except_socket")
+    err = pdb.enum_value("SPKI_ERROR")
+
+    def classify(inst, E, st):
+        if inst.op == "call" and inst.callee == "spki_table_add_entry":
+            if st.get("adds", 0) >= 3:
+                return flow.KILL        # three copied entries are enough: first / middle / last
+            return [(["adds"], {inst.ref: flow.av_in(0)}), (["adds", "=failed:1"], {inst.ref: flow.av_in(-1)})]
+        if inst.op == "call" and inst.callee == "lrtr_malloc":
+            return [([], {inst.ref: ("nin", frozenset([0]))})]
+        return None
+
+    def oracle(inst, pred, a, b, E):
+        if pred in ("eq", "ne") and ("arg", 2) in (a, b):
+            other = a if b == ("arg", 2) else b
+            if other[0] == "load" and vf.last_field(other[1]) == "key_entry.socket":
+                return pred == "ne"         # entries of other sockets: the ones that are copied
+        return None
+    outs, _f = es.count_effects(fn, pdb, classify, retsets, oracle=oracle, cap=128)
+    failed = [o for o in outs if o["counts"].get("failed") == "1"]
+    bad = [o for o in failed if flow.av_single(o["ret"]) != err]
+    ctx.check(bool(failed) and not bad, "C06.R4", "spki_table_copy_except_socket:error-latch", (bad[0]["inst"].loc() if bad else "%s:%d" % (fn.relfile, fn.line)),
+              ("a path on which one of %d copies failed returns %s" % (bad[0]["counts"].get("adds", 0), flow.av_single(bad[0]["ret"]))) if bad else
+              "%d paths with a failed copy among up to three: all return SPKI_ERROR" % len(failed), key="C06.R4:spki_copy:latch",
+              path=(flow.trace_lines(fn, bad[0]["trace"]) if bad else None))
+
+
 def r5(ctx, retsets):
     pdb = ctx.pdb
     ctx.rule("C06.R5", "lock order: whenever two table locks are held together the live table's lock is taken first "
@@ -407,6 +437,7 @@ def check(ctx):
     r2(ctx)
     r3(ctx, retsets)
     r4(ctx, retsets)
+    r4_spki_latch(ctx, retsets)
     r5(ctx, retsets)
     r6(ctx, retsets)
     from specs import C03
